@@ -209,6 +209,7 @@ func runShape(c *mc.Ctx, sh shape, br *o4h.Bridge, seed int64, quick bool) {
 	var sentPayload int
 	warm := 0
 	finished := false
+	var recs []wrec
 	var wantPayload []byte
 	res := sched.Run(c, sched.Options{NoPreempt: true, MaxSteps: 20_000_000}, func() {
 		s := sched.Cur()
@@ -348,10 +349,8 @@ func runShape(c *mc.Ctx, sh shape, br *o4h.Bridge, seed int64, quick bool) {
 			}
 			shc := sh
 			shc.size = size
-			checkWrites(c, shc, ws, T, lenVals, iatVals, t0)
-			if c.Failed() {
-				return
-			}
+			recs = append(recs, wrec{shc, append([]wire.WriteRec{}, ws...), T, append([]int{}, lenVals...), append([]int{}, iatVals...)})
+			_ = t0
 		}
 		conn.Close()
 		finished = true
@@ -366,6 +365,37 @@ func runShape(c *mc.Ctx, sh shape, br *o4h.Bridge, seed int64, quick bool) {
 	}
 	if c.Failed() {
 		return
+	}
+	// burst/shape rules, evaluated on what the reference peer decoded: the framed
+	// (non-padding) part of every Write is the sum of the frames that carry
+	// payload, whatever packet size the implementation chops into
+	if realErr == nil && refErr == nil && rs != nil && len(realWire.Out.Writes) > 0 {
+		base := int64(realWire.Out.Writes[0].N)
+		if sh.role == "server" {
+			base -= 45 // the inline seed frame is the first frame of the stream
+		}
+		for _, r := range recs {
+			if len(r.ws) == 0 {
+				// nothing to send (an empty Write in an IAT mode); iat-mode 0 still
+				// pads a burst and is held to "exactly one wire write" below
+				if r.sh.iat == 0 {
+					checkWrites(c, r.sh, r.ws, r.T, r.lenVals, r.iatVals, 0)
+				}
+				continue
+			}
+			lo := r.ws[0].Off - base
+			hi := r.ws[len(r.ws)-1].Off + int64(r.ws[len(r.ws)-1].N) - base
+			framed := 0
+			for i, f := range rs.Frames {
+				if int64(f.Off) >= lo && int64(f.Off) < hi && i < len(rs.Packets) && len(rs.Packets[i].Payload) > 0 {
+					framed += f.Len
+				}
+			}
+			checkWrites(c, r.sh, r.ws, r.T, r.lenVals, r.iatVals, framed)
+			if c.Failed() {
+				break
+			}
+		}
 	}
 	c.Observe("shape", fmt.Sprintf("writes=%d wire=%d realErr=%v refErr=%v", nWrites, len(realWire.Out.Writes), realErr, refErr))
 	if realErr != nil || refErr != nil {
@@ -394,12 +424,18 @@ func runShape(c *mc.Ctx, sh shape, br *o4h.Bridge, seed int64, quick bool) {
 	c.Count("shaped_writes", int64(nWrites))
 }
 
-func checkWrites(c *mc.Ctx, sh shape, ws []wire.WriteRec, T int, lenVals, iatVals []int, t0 time.Time) {
+type wrec struct {
+	sh               shape
+	ws               []wire.WriteRec
+	T                int
+	lenVals, iatVals []int
+}
+
+func checkWrites(c *mc.Ctx, sh shape, ws []wire.WriteRec, T int, lenVals, iatVals []int, framed int) {
 	total := 0
 	for _, w := range ws {
 		total += w.N
 	}
-	framed := framedLen(sh.size)
 	mode := fmt.Sprintf("iat%d", sh.iat)
 	burstRule := func() {
 		need := ((T-framed)%1448 + 1448) % 1448
